@@ -54,7 +54,7 @@ class Setup:
         self.validators = [bech32.addr(self.val_prefix, "val%d" % i) for i in range(3)]
         self.channel = profile.get("channel", "channel-+5" if rng.random() < 0.03 else "channel-7")
         self.other_channel = "channel-8"
-        self.sub = "stTIA"
+        self.sub = profile.get("sub", rng.choice(["stTIA", "stTIA", "milkTIA", "stkx", "A" * 40]))
         self.lst = "factory/%s/%s" % (self.contract, self.sub)
         self.oracle_on = profile.get("oracle", rng.random() < 0.75)
         self.treasury_on = profile.get("treasury", rng.random() < 0.6)
